@@ -129,6 +129,21 @@ let () =
            | KTarget n -> "8 " ^ hex_of_bytes n ^ " - ."))
     | _ -> "ERR args")
 
+(* ---- file observation (C13) ----
+   fs_obs <mode 0|1|2> <state>   state = "missing" or kind:dev:ino:mode:size:sec:nsec:readable:digesthex
+   (the digest of the content is computed by the harness: the model takes the digest function as a parameter) *)
+let fsmode_of = function "0" -> MDefault | "1" -> MDevAgnostic | _ -> MChecksumOnly
+let state_of s = if s = "missing" then (None, []) else
+    match String.split_on_char ':' s with
+    | [k; d; i; m; sz; se; ns; rd; dg] ->
+      (Some { o_kind = (match k with "f" -> OFile | "d" -> ODir | _ -> OLink); o_dev = n_of_dec d; o_ino = n_of_dec i; o_mode = n_of_dec m;
+              o_size = n_of_dec sz; o_sec = n_of_dec se; o_nsec = n_of_dec ns; o_content = []; o_readable = (rd = "1") }, bytes_of_hex dg)
+    | _ -> failwith "state"
+let obs m s = let (st, dg) = state_of s in observe (fun _ -> dg) (fsmode_of m) st
+let () =
+  register "fs_obs" (function [m; s] -> let f = obs m s in string_of_fi f ^ " " ^ b2s (is_missing f) | _ -> "ERR args");
+  register "fs_eq" (function [m; s1; s2] -> b2s (info_eqb (obs m s1) (obs m s2)) | _ -> "ERR args")
+
 (* MAIN-LOOP (keep last) *)
 let () =
   try
